@@ -879,4 +879,34 @@ theorem version_bytes (t : Bytes) (hb : ∀ b ∈ t, b < 256) (hv : u32At t 0 = 
   simp only [u16At, Nat.zero_add, show 2 + 1 = 3 from rfl]
   omega
 
+
+/-! ## `setU16` (maxp, hhea) -/
+
+theorem setU16_length (d : Bytes) (pos v : Nat) : (setU16 d pos v).length = d.length := by simp [setU16]
+
+theorem setU16_getElem?_ne (d : Bytes) (pos v i : Nat) (h1 : i ≠ pos) (h2 : i ≠ pos + 1) :
+    (setU16 d pos v)[i]? = d[i]? := by
+  simp only [setU16, List.getElem?_set]
+  have a : ¬ pos + 1 = i := fun e => h2 e.symm
+  have b : ¬ pos = i := fun e => h1 e.symm
+  simp [a, b]
+
+theorem u16At_setU16 (d : Bytes) (pos v : Nat) (hv : v < 65536) (hp : pos + 1 < d.length) :
+    u16At (setU16 d pos v) pos = v := by
+  simp only [u16At, setU16, List.getD_eq_getElem?_getD, List.getElem?_set]
+  simp [hp, show pos < d.length by omega]
+  omega
+
+theorem u16At_setU16_ne (d : Bytes) (pos v q : Nat) (h : q + 1 < pos ∨ pos + 1 < q) :
+    u16At (setU16 d pos v) q = u16At d q := by
+  simp only [u16At, List.getD_eq_getElem?_getD]
+  rw [setU16_getElem?_ne _ _ _ _ (by omega) (by omega), setU16_getElem?_ne _ _ _ _ (by omega) (by omega)]
+
+
+theorem flatMap_const_length {α : Type} (l : List α) (f : α → Bytes) (k : Nat) (h : ∀ x, (f x).length = k) :
+    (l.flatMap f).length = k * l.length := by
+  induction l with
+  | nil => simp
+  | cons x rest ih => rw [List.flatMap_cons, List.length_append, ih, h, List.length_cons]; rw [Nat.mul_succ]; omega
+
 end FontVerif.SubsetPost
